@@ -2,7 +2,7 @@
 C09 — every public load/dump entry point agrees with the class-level codec.
 
 Proof:  Molli.Props.C09 (dispatch_agrees: ∀ cell, observed = spec, by `decide +kernel` over the generated
-        2160-row table lifted by the enumeration lemma; corollaries lists_where_promised, unsupported_is_valueerror,
+        2592-row table lifted by the enumeration lemma; corollaries lists_where_promised, unsupported_is_valueerror,
         name_honoured, stream_untouched, reaches_class_codec, class_failure_propagates, raises_only_documented)
         + Molli.Gen.Dispatch (regenerated on every run by spying on the class methods of the live repository).
 Tie:    (1) the table is exhaustive over the matrix — complete tie for the dispatch; every row is also compared with
@@ -17,6 +17,7 @@ Oracle: the comparison with the class method IS the property (model-free: it nev
 from __future__ import annotations
 
 import io
+import os
 import json
 import shutil
 import warnings
@@ -253,7 +254,7 @@ def describe_call(cell, fmt) -> str:
     suffix, fmt_arg = L.path_form(cell, fmt)
     fs = repr(fmt_arg if k == "path" else fmt)
     if k == "path":
-        k = f"path with suffix {suffix!r}"
+        k = f"path with suffix {suffix!r}" + (f", a symbolic link to a file named *{L.LINK_TARGET_SUFFIX[f]}" if pf == "deducedLink" else "")
     nm = f", name={L.GIVEN_NAME!r}" if n == "given" else ""
     ot = {"molecule": "'molecule'", "ensemble": "'ensemble'", "structure": "ml.Structure"}[o]
     if e in ("load", "load_all"):
@@ -358,6 +359,9 @@ def content_cell(ctx, spy, cell, sample, fmt_for_unsupported=None):
                        first_diff(list((w or "").splitlines()), list(want.splitlines())), v["fmt"])
             if obs["caller_stream"] is not None and obs["caller_stream"].closed:
                 report(ctx, "C09:dump:stream-ownership", tag, "caller's stream was closed", v["fmt"])
+            elif obs["caller_stream"] is not None and getattr(obs["caller_stream"], "other_calls", []):
+                report(ctx, "C09:dump:stream-ownership", tag,
+                       f"{obs['caller_stream'].other_calls} called on the caller's stream (the class method only writes)", v["fmt"])
             if any(not fh.closed for fh in obs["opened"]):
                 report(ctx, "C09:dump:stream-ownership", tag, "file opened by dump left open", v["fmt"])
         else:  # dumps
@@ -657,6 +661,173 @@ def string_sequences(ctx, spy, contents: dict):
                     break
 
 
+class Sink:
+    """a caller-supplied sink as the class-level dump_xyz / dump_mol2 accept it: only write() is needed.
+    kind: 'write-only' (no other attribute), 'flush-raises' / 'close-raises' (present, raise, recorded), 'recording'"""
+
+    def __init__(self, kind):
+        self.kind = kind
+        self.parts = []
+        self.calls = []
+        if kind != "write-only":
+            self.flush = self._flush
+            self.close = self._close
+
+    def write(self, text):
+        self.calls.append("write")
+        self.parts.append(text)
+        return len(text)
+
+    def _flush(self):
+        self.calls.append("flush")
+        if self.kind == "flush-raises":
+            raise RuntimeError("flush() of a caller-owned sink")
+
+    def _close(self):
+        self.calls.append("close")
+        if self.kind == "close-raises":
+            raise RuntimeError("close() of a caller-owned sink")
+
+    def text(self):
+        return "".join(self.parts)
+
+
+def sink_cases(ctx, spy, sample):
+    """WRITER SIDE, caller-owned targets that are not files: ml.dump must treat the sink exactly as the class method
+    does — same calls made on it (only write), same text, same outcome; for an unsupported format ValueError and no
+    call at all."""
+    import molli as ml
+
+    for kind in ("write-only", "flush-raises", "close-raises", "recording"):
+        for f, fs in (("xyz", "xyz"), ("mol2", "mol2"), ("cdxml", "cdxml"), ("unsupported", L.UNSUPPORTED_TABLE_FMT)):
+            for o in L.OTYPES:
+                obj = sample.objs[o]
+                cell = ("dump", f, "stream", o, "notgiven", "explicitMatching")
+                got_sink, ref_sink = Sink(kind), Sink(kind)
+                try:
+                    r, gex = ml.dump(obj, got_sink, fs), None
+                except Exception as ex:  # noqa: BLE001
+                    r, gex = None, ex
+                if f in ("xyz", "mol2"):
+                    try:
+                        getattr(obj, f"dump_{f}")(ref_sink)
+                        rex = None
+                    except Exception as ex:  # noqa: BLE001
+                        rex = ex
+                    want_exc = exc_name(rex)
+                else:
+                    want_exc = "ValueError"
+                ctx.case(f"sink:{sample.tag}:{kind}:{f}:{o}", nontrivial=True)
+                ctx.count("sinks:" + kind)
+                what = None
+                if exc_name(gex) != want_exc:
+                    what = f"outcome {exc_name(gex) or 'returned'}, the class method / the property: {want_exc or 'returned'}"
+                elif set(got_sink.calls) - {"write"} != set(ref_sink.calls) - {"write"}:
+                    what = f"calls made on the sink {sorted(set(got_sink.calls))}, by the class method {sorted(set(ref_sink.calls))}"
+                elif got_sink.text() != ref_sink.text():
+                    what = "text in the sink differs from the class method's"
+                elif gex is None and r is not None:
+                    what = f"returned {type(r).__name__}"
+                if what:
+                    ctx.violation("C09:dump:caller-sink-not-treated-as-by-class-method",
+                                  f"ml.dump(<{o}>, <{kind} sink>, {fs!r}) on {sample.tag}: {what}",
+                                  replay_obj(cell, sample, f"sink={kind}", what, "calls, text and outcome of the class-level dump on the same sink", fs))
+
+
+def path_spelling_cases(ctx, spy, sample):
+    """READER (and dump) SIDE: the path AS GIVEN decides — other spellings of a location (relative, with '..' segments,
+    '~'), and symbolic links whose own suffix differs from the suffix of what they point to, in both directions; each call
+    compared with the class-level codec given the SAME path (explicit format) / the format the given suffix names."""
+    import molli as ml
+
+    work = sample.workdir / "spell"
+    (work / "sub" / "store").mkdir(parents=True, exist_ok=True)
+    old_cwd, old_home = os.getcwd(), os.environ.get("HOME")
+    try:
+        os.chdir(work)
+        os.environ["HOME"] = str(work)
+        for f in ("xyz", "mol2"):
+            text = Path(sample.files[f]).read_text()
+            other = L.SUFFIX_OTHER[f]
+            (work / f"plain.{f}").write_text(text)
+            (work / "sub" / "store" / f"9c.blob").write_text(text)
+            (work / "sub" / "store" / f"real{other}").write_text(text)
+            (work / "sub" / "store" / f"real.{f}").write_text(text)
+            L.make_link(work / f"to_blob.{f}", work / "sub" / "store" / "9c.blob")            # good suffix -> unsupported name
+            L.make_link(work / f"to_other.{f}", work / "sub" / "store" / f"real{other}")      # good suffix -> other format's name
+            L.make_link(work / "to_real.dat", work / "sub" / "store" / f"real.{f}")           # unsupported suffix -> good name
+            L.make_link(work / f"to_real{other}", work / "sub" / "store" / f"real.{f}")       # other format's suffix -> this format
+            spellings = [f"plain.{f}", f"./sub/../plain.{f}", f"~/plain.{f}", f"sub/store/../../plain.{f}",
+                         f"to_blob.{f}", f"to_other.{f}", "to_real.dat", f"to_real{other}", f"~/to_blob.{f}"]
+            for sp in spellings:
+                for e in ("load", "load_all"):
+                    for o in ("molecule", "ensemble", "structure"):
+                        if e == "load_all" and o == "ensemble":
+                            continue
+                        C = L.otype_cls(o)
+                        for fmt_arg in (None, f):
+                            arg = sp if o != "structure" else Path(sp)
+                            # reference: the class method on the SAME path; with no format given, the format the given
+                            # suffix names decides (an unsupported / missing one: ValueError)
+                            sfx = Path(sp).suffix[1:]
+                            eff = fmt_arg or sfx
+                            with warnings.catch_warnings():
+                                warnings.simplefilter("ignore")
+                                try:
+                                    got, gex = getattr(ml, e)(arg, fmt_arg, otype=L.otype_arg(o)), None
+                                except Exception as ex:  # noqa: BLE001
+                                    got, gex = None, ex
+                                if eff in ("xyz", "mol2"):
+                                    try:
+                                        ref, rex = getattr(C, f"{e}_{eff}")(arg), None
+                                    except Exception as ex:  # noqa: BLE001
+                                        ref, rex = None, ex
+                                    want = exc_name(rex)
+                                else:
+                                    ref, want = None, "ValueError"
+                            ctx.case(f"spelling:{sample.tag}:{e}:{o}:{sp}:{fmt_arg}", nontrivial=want is None)
+                            ctx.count("path-spellings:" + ("link" if sp.lstrip("~/").startswith("to_") else "plain"))
+                            what = None
+                            if exc_name(gex) != want:
+                                what = f"entry point: {exc_name(gex) or 'returned'}, class method on the same path: {want or 'returned'}"
+                            elif want is None and canon_value(got) != canon_value(ref):
+                                what = first_diff(canon_value(got), canon_value(ref))
+                            if what:
+                                cell = (e, f, "path", o, "notgiven", "deduced" if fmt_arg is None else "explicitMatching")
+                                ctx.violation(f"C09:{e}:path-as-given-not-honoured",
+                                              f"ml.{e}({sp!r}, {fmt_arg!r}, otype={o}) [cwd and HOME = a directory holding the files / links] on {sample.tag}: {what}",
+                                              {"spelling": {"path": sp, "fmt": fmt_arg, "format_of_content": f, "entry": e, "otype": o,
+                                                            "text": text if len(text) < 20000 else text[:20000]}})
+            # dump: the suffix of the link as given names the format, whatever the link points to
+            for sp, tgt in ((f"out_link.{f}", "out_target.blob"), (f"./sub/../out_plain.{f}", None)):
+                for o in L.OTYPES:
+                    obj = sample.objs[o]
+                    if tgt:
+                        (work / "sub" / "store" / tgt).write_text("")
+                        L.make_link(work / sp, work / "sub" / "store" / tgt)
+                    elif (work / f"out_plain.{f}").exists():
+                        (work / f"out_plain.{f}").unlink()
+                    st = io.StringIO()
+                    getattr(obj, f"dump_{f}")(st)
+                    try:
+                        ml.dump(obj, sp, mode="w")
+                        got = Path(sp).read_text()
+                    except Exception as ex:  # noqa: BLE001
+                        got = "raised " + type(ex).__name__
+                    ctx.case(f"spelling:dump:{sample.tag}:{o}:{sp}")
+                    ctx.count("path-spellings:dump")
+                    if got != st.getvalue():
+                        ctx.violation("C09:dump:path-as-given-not-honoured",
+                                      f"ml.dump(<{o}>, {sp!r}) on {sample.tag}: " + (got if got.startswith("raised") else "text differs from the class method's"),
+                                      {"spelling": {"path": sp, "fmt": None, "format_of_content": f, "entry": "dump", "otype": o}})
+    finally:
+        os.chdir(old_cwd)
+        if old_home is None:
+            os.environ.pop("HOME", None)
+        else:
+            os.environ["HOME"] = old_home
+
+
 def unsupported_cases(ctx, spy, sample):
     """every unsupported format string is a ValueError, nothing is written, the caller's stream stays open"""
     import molli as ml
@@ -707,7 +878,7 @@ def run(ctx):
     from harness.gen import Dispatch as G
 
     ctx.exhaustive = True
-    ctx.rule = ("(1) every cell of the 6x4x3x3x2x5 matrix (2160, exhaustive; the sixth dimension is the form of a path argument: "
+    ctx.rule = ("(1) every cell of the 6x4x3x3x2x6 matrix (2592, exhaustive; the sixth dimension is the form of a path argument: "
                 "explicit format with matching / no / other supported / unsupported suffix, or format deduced from the suffix) is "
                 "one case; non-trivial = the cell lies in the domain of its entry point (372 cells) — it is really called with "
                 "spies installed. (2) content cases: (applicable cell, input sample, call variant [str path / mode w / append to "
@@ -789,6 +960,9 @@ def run(ctx):
                 optional_argument_cases(ctx, spy, s)
             if i < 3 or not ctx.quick():
                 unsupported_cases(ctx, spy, s)
+            if i < 3 or (not ctx.quick() and i % 3 == 0):
+                sink_cases(ctx, spy, s)
+                path_spelling_cases(ctx, spy, s)
             if i == len(samples) - 1:
                 # ---------------- (2b) sequences of calls: hidden state between calls ----------------
                 contents = {"xyz": [], "mol2": [], "cdxml": []}
@@ -820,6 +994,30 @@ def replay(ctx, path):
     obj = json.loads(path.read_text())
     print(json.dumps({k: v for k, v in obj.items() if k != "replay"}, indent=1)[:1500])
     r = obj.get("replay") or {}
+    if "spelling" in r:
+        import molli as ml
+
+        q = r["spelling"]
+        print(f"ml.{q['entry']}({q['path']!r}, {q['fmt']!r}, otype={q['otype']}) with cwd = HOME = a directory holding {q['format_of_content']} content under "
+              "plain.<fmt>, sub/store/9c.blob, sub/store/real.<fmt|other> and the links to_blob.<fmt>, to_other.<fmt>, to_real.dat, to_real.<other>")
+        files = {"xyz": REPO / "molli/files/pentane_confs.xyz", "mol2": REPO / "molli/files/pentane_confs.mol2",
+                 "cdxml": REPO / "molli/files/parser_demo.cdxml"}
+        if q.get("text"):
+            fp = ctx.scratch / ("replay." + q["format_of_content"])
+            fp.write_text(q["text"])
+            files[q["format_of_content"]] = fp
+        s_ = make_sample(files, ctx.scratch, "replay", None)
+
+        class _P:
+            def case(self, *a, **k): pass
+            def count(self, *a, **k): pass
+            def violation(self, kind, what, rp):
+                if rp.get("spelling", {}).get("path") == q["path"] and rp["spelling"].get("entry") == q["entry"]:
+                    print("  VIOLATION", kind, "-", what[:400])
+
+        with L.Spy() as spy:
+            path_spelling_cases(_P(), spy, s_)
+        return 0
     if "sequence" in r:
         q = r["sequence"]
         print(f"sequence on ONE path: ml.{q['entry']}(<{q['fmt']} path>, otype={q['otype']}, name={q['name']!r}); the file is rewritten "
